@@ -5,4 +5,7 @@ cd "$(dirname "$0")"
 export GOFLAGS=-mod=mod GOPROXY=off GOSUMDB=off GOTOOLCHAIN=local
 mkdir -p bin build evidence replays
 (cd engine && go build -o ../bin/gosym .)
+
+# engine regression suite: must-hold assertions unsat, must-fail assertions have counterexamples
+python3 tools/selftest.py
 echo "setup ok"
